@@ -398,12 +398,35 @@ func init() {
 			n := e.argInt(a[0])
 			return e.newSlice(types.Typ[types.Uint8], n, n), nil
 		},
+		"internal/bytealg.Equal": func(e *Exec, fn *ssa.Function, a []Value) (Value, *GoPanic) {
+			return stubs["bytes.Equal"](e, fn, a)
+		},
 		"internal/bytealg.IndexByte":       bytesIndexByte,
 		"internal/bytealg.IndexByteString": stringsIndexByte,
 		"internal/bytealg.IndexString":     stringsIndex,
-		"time.After":                       timeAfter,
-		"time.Now":                         timeNow,
-		"time.Since":                       timeSince,
+		"context.WithTimeout": func(e *Exec, fn *ssa.Function, a []Value) (Value, *GoPanic) {
+			// the derived context is the parent: deadlines on randomness reads are environment behaviour
+			return &TupleV{E: []Value{a[0], &FuncV{Fn: nopFn{}}}}, nil
+		},
+		"context.WithCancel": func(e *Exec, fn *ssa.Function, a []Value) (Value, *GoPanic) {
+			return &TupleV{E: []Value{a[0], &FuncV{Fn: nopFn{}}}}, nil
+		},
+		"github.com/u-root/uio/rand.ReadContext": func(e *Exec, fn *ssa.Function, a []Value) (Value, *GoPanic) {
+			return e.randomFill(a[1].(*SliceV)), nil
+		},
+		"github.com/u-root/uio/rand.Read": func(e *Exec, fn *ssa.Function, a []Value) (Value, *GoPanic) {
+			return e.randomFill(a[0].(*SliceV)), nil
+		},
+		"crypto/rand.Read": func(e *Exec, fn *ssa.Function, a []Value) (Value, *GoPanic) {
+			return e.randomFill(a[0].(*SliceV)), nil
+		},
+		"time.Date": func(e *Exec, fn *ssa.Function, a []Value) (Value, *GoPanic) {
+			// calendar dates are outside the model: every date is the epoch of the virtual clock
+			return e.zero(fn.Signature.Results().At(0).Type()), nil
+		},
+		"time.After": timeAfter,
+		"time.Now":   timeNow,
+		"time.Since": timeSince,
 	}
 }
 
@@ -689,3 +712,26 @@ func stringsTrimRight(e *Exec, fn *ssa.Function, a []Value) (Value, *GoPanic) {
 }
 
 var _ = fmt.Sprintf
+
+// nopFn is a callable that does nothing (cancel functions of stubbed contexts).
+type nopFn struct{}
+
+// randomFill models a randomness source: arbitrary bytes, full length, no error.
+func (e *Exec) randomFill(s *SliceV) Value {
+	if s.Len > 0 {
+		arr := sliceArr(s)
+		for i := 0; i < s.Len; i++ {
+			arr.E[s.Off+i] = e.fresh("random", 8)
+		}
+	}
+	return &TupleV{E: []Value{e.tb.Const(64, uint64(s.Len)), &IfaceV{}}}
+}
+
+func init() {
+	loc := func(e *Exec) Value {
+		g := e.w.pool.P.pkgs["time"].Var("utcLoc")
+		return &Ptr{Obj: e.w.global(e, g)}
+	}
+	stdGlobalInit["time.UTC"] = loc
+	stdGlobalInit["time.Local"] = loc
+}
